@@ -18,13 +18,14 @@ import (
 
 // contractMon collects the observations of all wrapped operators of one query execution.
 type contractMon struct {
-	mu         sync.Mutex
-	violations []Violation
-	opsByType  map[string]int
-	nextCalls  int64
-	vectors    int64
-	emptyStale int64 // empty vectors whose T is not the step's (statistic only, see DESIGN C18 trap)
-	mode       string
+	mu           sync.Mutex
+	violations   []Violation
+	opsByType    map[string]int
+	nextCalls    int64
+	vectors      int64
+	emptyStale   int64 // empty vectors whose T is not the step's (statistic only, see DESIGN C18 trap)
+	emptyBatches int64 // empty non-nil batches (statistic only)
+	mode         string
 }
 
 func (m *contractMon) add(rule, detail string) {
@@ -127,6 +128,11 @@ func (o *contractOp) Next(ctx context.Context) ([]model.StepVector, error) {
 		}
 		o.ended = true
 		return nil, nil
+	}
+	if len(out) == 0 {
+		// statistic only: an empty, non-nil batch is neither data nor the end; the contract as stated
+		// does not forbid it (the remote operator returns one before it ends)
+		atomic.AddInt64(&o.mon.emptyBatches, 1)
 	}
 	if o.ended {
 		o.mon.add("R8-resurrected", fmt.Sprintf("%s: Next returned %d vectors after it had signalled the end of the stream", o.desc, len(out)))
@@ -259,6 +265,7 @@ func (p c18Prop) Check(c Case) Outcome {
 	o.Count("next_calls_checked", mon.nextCalls)
 	o.Count("vectors_checked", mon.vectors)
 	o.Count("empty_vectors_with_foreign_T", mon.emptyStale)
+	o.Count("empty_non_nil_batches", mon.emptyBatches)
 	o.Count("mode:"+c.Kind, 1)
 	o.NonTrivial = nops >= 2 && mon.vectors > 0 && len(plain.Res.Series) > 0
 	cand := append([]Violation(nil), mon.violations...)
